@@ -122,7 +122,9 @@ Inductive label :=
 | LSHook (g : nat) | LSWriteOk (g : nat) | LSWriteErr (g : nat) | LSFailPush (g : nat) | LSFailClose (g : nat)
 (* harness log *)
 | LLogEnq (id : nat) | LLogPClose (g : nat) | LLogObs (g : nat) | LLogSrv (g id : nat) | LLogReply (id : nat)
-| LLogFail (id : nat) | LLogDial (g : nat) | LLogCliClose (g : nat) | LLogCFlag (g : nat).
+| LLogFail (id : nat) | LLogDial (g : nat) | LLogCliClose (g : nat) | LLogCFlag (g : nat)
+(* caller, endpoint down *)
+| LReconnectFail.
 
 Section Model.
 Variable fixed : bool.
@@ -141,6 +143,11 @@ Definition step (s : st) (l : label) : option st :=
         Some (mkSt false (Some (ngen s)) (S (ngen s)) (upd (gens s) (ngen s) gen0) (sendQ s) (failQ s) (hist s) (atts s)
                    (lenq s) (lpc s) (lsrv s) (ldial s) (log s))
       else Some s
+  | LReconnectFail =>                          (* ReConnect while the endpoint refuses connections: the dial fails, the
+                                                  error is returned to the caller, the client stays closed, no goroutine
+                                                  is started (connection.conn becomes nil; with the flag set nothing
+                                                  distinguishes that from the old value, so [cur] is kept) *)
+      if closedF s then Some s else None
   | LEnq m =>                                  (* TarsClient.Send: sendQueue <- m *)
       if memn m (lenq s) && negb (memn m (hist s)) then
         Some (w_hist (w_sendQ (w_gens s (fun x => add_late (gens s x) m)) (sendQ s ++ [m])) (hist s ++ [m]))
@@ -281,10 +288,15 @@ Fixpoint run (s : st) (ls : list label) : option st :=
 
 End Model.
 
+(* the variant seeded as C11-m3: ReConnect clears the closed flag BEFORE it dials, so a failed dial leaves the client
+   marked open with no connection and no goroutines *)
+Definition dial_fail_m3 (s : st) : st :=
+  mkSt false None (ngen s) (gens s) (sendQ s) (failQ s) (hist s) (atts s) (lenq s) (lpc s) (lsrv s) (ldial s) (log s).
+
 (* labels that belong to the harness/peer/callers rather than to the client's goroutines *)
 Definition internal (l : label) : bool :=
   match l with
-  | LReconnect | LEnq _ | LUserClose | LPeerClose _ | LLogEnq _ | LLogPClose _ | LLogObs _ | LLogSrv _ _
+  | LReconnect | LReconnectFail | LEnq _ | LUserClose | LPeerClose _ | LLogEnq _ | LLogPClose _ | LLogObs _ | LLogSrv _ _
   | LLogReply _ | LLogFail _ | LLogDial _ | LLogCliClose _ | LLogCFlag _ | LSIdleClose _ | LSBlkTick _ => false
   | _ => true
   end.
